@@ -57,6 +57,18 @@ SessPacketPlain(S, seq4, msg, key1) ==
   LET signed == IntegPadded(Cat(<< B(<<6, 64>>), Var("sidM"), B(seq4), Len16(msg), msg >>))
   IN  Cat(<< Rmcp, signed, Trunc(Hmac(S.integAlg, key1, signed), S.integLen) >>)
 
+\* the same packet for a message whose length depends on the request (rule-driven BMC):
+\* lengths and pads are then computed where the term is evaluated
+DynMsgRsp(netfnRsp, cmd, cc, bodyT) ==
+  LET h1 == <<129, netfnRsp * 4>>
+      h2 == Cat(<< B(<<32, 4, cmd, cc>>), bodyT >>)
+  IN  Cat(<< B(h1 \o <<Checksum(h1)>>), h2, Cksum(h2) >>)
+DynSessPacket(S, seq4, msgT, iv) ==
+  LET pl     == Cat(<< B(iv), Aes(Ref("K2"), B(iv), DynPadSeq(msgT)) >>)
+      signed == DynPadFF(Cat(<< B(<<6, 192>>), Var("sidM"), B(seq4), DynLen16(pl), pl >>))
+  IN  Cat(<< Rmcp, signed, Trunc(Hmac(S.integAlg, Ref("K1"), signed), S.integLen) >>)
+DynNullWrapper(ptype, payloadT) == Cat(<< Rmcp, B(<<6, ptype, 0, 0, 0, 0, 0, 0, 0, 0>>), DynLen16(payloadT), payloadT >>)
+
 \* recipes the (simulated) BMC applies to every in-session request it receives
 ReqAuthOk(S) == Eq(Slice(Req, 0 - S.integLen, -1),
                    Trunc(Hmac(S.integAlg, Ref("K1"), Slice(Req, 4, 0 - S.integLen)), S.integLen))
